@@ -458,4 +458,13 @@ def _vec_extend(ctx, a, ty, c):
             if x is None:
                 return UNIT
             v.pushed.append(x)
+    if isinstance(src, (Ref, Lazy)) and v.kind == "vec":
+        tgt = load(ctx, src)
+        if isinstance(tgt, Lazy) and tgt.ty.strip().startswith(("std::vec::Vec", "Vec")):
+            et = (type_args(tgt.ty) or ["?"])[0]
+            tgt = Obj("seq", tgt.ty, name=tgt.name, cells=[Cell(Lazy(et, "%s[%d]" % (tgt.name, i)), "%s[%d]" % (tgt.name, i)) for i in range(2)])
+            store(ctx, src, tgt)
+        if isinstance(tgt, Obj) and tgt.kind == "seq":
+            v.pushed.extend(Ref(c_, ()) for c_ in tgt.cells)
+            return UNIT
     raise Unsupported("Vec::extend with %r" % (src,))
